@@ -67,7 +67,21 @@ func writeEvidence(prop, tier string, seed uint64, a *agg, bt *builtTree, lcs []
 			zeroProbes = append(zeroProbes, k)
 		}
 	}
+	never := []string{}
+	for id := range a.executed {
+		if !a.preempted[id] && id < len(bt.rw.PointNames) {
+			never = append(never, bt.rw.PointNames[id])
+		}
+	}
+	sort.Strings(never)
 	cov := map[string]any{
+		"library_statements": map[string]any{
+			"inner_yield_points_inserted":           len(bt.rw.PointNames) - 1,
+			"reached_by_simulated_tasks":            len(a.executed),
+			"pre_empted_right_before_at_least_once": len(a.preempted),
+			"reached_but_never_pre_empted":          never,
+			"meaning":                               "reach of the inner pre-emption: a statement counts as pre-empted when some run parked the executing task immediately before it and let the scheduler decide who runs next",
+		},
 		"evaluations":                        total,
 		"distinct_nontrivial":                len(a.ntSigs),
 		"rule":                               propText[prop].rule,
